@@ -281,6 +281,20 @@ def decode_text(raw: bytes, charset, byte_order=None):
         raise ModelError("undecodable", str(e)) from e
 
 
+def codec_of(charset, byte_order=None):
+    codec = PY_CODEC.get(charset)
+    if codec is None and charset in ("UTF-16", "UTF-32") and byte_order in (ir.MSB, ir.LSB):
+        codec = charset.lower() + ("-be" if byte_order == ir.MSB else "-le")
+    return codec
+
+
+def encode_text(text, charset, byte_order=None):
+    codec = codec_of(charset, byte_order)
+    if codec is None:
+        raise DontCare()
+    return text.encode(codec)
+
+
 def string_value(enc: ir.StrEnc, fb: str):
     """fb = the L bits of the buffer. -> (text, raw buffer bytes)"""
     L = len(fb)
@@ -353,9 +367,11 @@ def decode_param(t: ir.PType, allbits: str, pos: int, env):
             text, raw = string_value(enc, fb)
             return Val(text, raw, "str"), pos + n
         if t.kind == "enumerated":
-            _text, raw = string_value(enc, fb)
+            # string-encoded enumeration: the lookup key is the whole raw buffer; the document lists the TEXT, which
+            # stands for its encoding in the declared character set (and byte order)
+            raw = bits.bits_to_bytes_right_padded(fb)
             for v, lab in t.enumeration:
-                if isinstance(v, bytes) and v == raw:
+                if isinstance(v, str) and encode_text(v, enc.charset, enc.byte_order) == raw:
                     return Val(lab, raw, "str"), pos + n
             raise ModelError("unlisted-enumeration-value", repr(raw))
         raise DontCare()
